@@ -459,6 +459,60 @@ func runC12(c *core.Ctx, o Options) {
 	// ---- (d′) the parsed schema is read-only for the generator: a second run over the same document (another output
 	// directory, a determinism check) must see the document the first run saw
 	checkSchemaReadOnly(c, "d", gen)
+	// ---- (d″) a generated file is what this run produced and nothing else: the writer truncates (os.Create / os.WriteFile /
+	// OpenFile with O_TRUNC), otherwise the tail of a longer file from an earlier run survives and the output depends on the directory
+	if wf := c.Func("generator", "Generator.write"); c.Anchor("file writer", wf != nil, "Generator.write", posOf(wf)) {
+		nOpen := 0
+		for _, f := range an.WithAnon(wf) {
+			an.AllInstrs(f, func(in ssa.Instruction) {
+				call, ok := in.(*ssa.Call)
+				if !ok {
+					return
+				}
+				cal := an.StaticCallee(&call.Call)
+				if cal == nil || cal.Pkg == nil || cal.Pkg.Pkg.Path() != "os" {
+					return
+				}
+				switch cal.Name() {
+				case "Create", "WriteFile":
+					nOpen++
+					c.Ob("d", "write", "os."+cal.Name()+" truncates", call.Pos()).Ok("os.%s replaces the file's content", cal.Name())
+				case "OpenFile":
+					nOpen++
+					flags, isK := an.ConstInt(call.Call.Args[1])
+					const oTrunc, oAppend = 0x200, 0x400 // syscall.O_TRUNC, O_APPEND on linux
+					c.Check(isK && flags&oTrunc != 0 && flags&oAppend == 0, "d", "write", "os.OpenFile truncates", call.Pos(), "O_TRUNC set, O_APPEND clear",
+						fmt.Sprintf("the output file is opened with flags %#x (O_TRUNC missing or O_APPEND set): what a previous run left in the file survives, so the emitted package depends on the directory's history", flags))
+				}
+			})
+		}
+		c.Check(nOpen >= 1, "d", "write", "the writer opens its file", wf.Pos(), fmt.Sprint(nOpen), "Generator.write does not open a file through package os (anchor moved)")
+	}
+	// ---- (g′) decisions about a field's Go type go through the type mapping, never through the schema's type names: the mapping
+	// is an input (the quantifier changes it), so a literal type name is right only for the shipped mapping
+	for _, fn := range pkgFuncs(gen) {
+		if c.Fset.Position(fn.Pos()).Filename != "" && strings.HasSuffix(c.Fset.Position(fn.Pos()).Filename, "type_caster.go") {
+			continue
+		}
+		an.AllInstrs(fn, func(in ssa.Instruction) {
+			bo, ok := in.(*ssa.BinOp)
+			if !ok || (bo.Op != token.EQL && bo.Op != token.NEQ) {
+				return
+			}
+			for _, pr := range [][2]ssa.Value{{bo.X, bo.Y}, {bo.Y, bo.X}} {
+				if _, isStr := an.ConstString(pr[1]); !isStr {
+					continue
+				}
+				if f, _ := an.LoadedField(pr[0]); f != nil && f.Name() == "Type" && f.Pkg() == gen.Pkg {
+					lit, _ := an.ConstString(pr[1])
+					if owner := fieldOwner(f); owner == "Field" {
+						c.Ob("g", an.NameOf(fn), "schema type name compared with the literal "+strconvQuote(lit), bo.Pos()).Fail(
+							"a field's schema type is compared with the literal %q: which Go type a schema type maps to is decided by the type mapping (typeCast), so this is right only for the shipped mapping — with another mapping flags become enums, or enums flags", lit)
+					}
+				}
+			}
+		})
+	}
 	// ---- (e) package name
 	ex := c.Func("generator", "Generator.Execute")
 	if c.Anchor("Execute", ex != nil, "Generator.Execute", posOf(ex)) {
@@ -924,3 +978,5 @@ func checkSchemaReadOnly(c *core.Ctx, rule string, gen *ssa.Package) {
 	}
 	c.Check(nFn >= 30, rule, "", "generator functions scanned for writes to the document", token.NoPos, fmt.Sprintf("%d functions, %d writing sites", nFn, nSites), fmt.Sprintf("only %d functions scanned", nFn))
 }
+
+func strconvQuote(s string) string { return fmt.Sprintf("%q", s) }
